@@ -50,7 +50,7 @@ ASSUMPTIONS = [
     "read as a datetime whose written fields match (remaining fields unconstrained)",
     "reading: years 0002..9998 so that applying the offset stays representable; seconds 00..59",
     "bool for revision: either ValueError or a reading equal to 1 (True == 1) is accepted",
-    "aware datetimes are not generated (API is documented in naive UTC)",
+    "aware datetimes get a lenient reading (wall-clock fields or UTC equivalent) (API is documented in naive UTC)",
 ]
 
 DECKS = {
@@ -297,6 +297,15 @@ def apply_set(cp, prop, v, model, assigned):
         elif kind == "rev":
             if not (isinstance(g, int) and not isinstance(g, bool) and g == v):
                 raise Violation("C18:set-get:rev", "revision assigned %r reads %r" % (v, g))
+        elif v.tzinfo is not None:
+            # an aware datetime: the API is documented in naive UTC and the statement is silent on which
+            # reading an aware value gets, so either its wall-clock fields or its UTC equivalent is accepted -
+            # but it must be stored as a valid timestamp and read back as a naive datetime
+            wall = v.replace(tzinfo=None)
+            utc = (v - v.utcoffset()).replace(tzinfo=None)
+            if not (isinstance(g, dt.datetime) and g.tzinfo is None
+                    and (abs(g - wall) < dt.timedelta(seconds=1) or abs(g - utc) < dt.timedelta(seconds=1))):
+                raise Violation("C18:set-get:date:aware", "%s assigned %r reads %r" % (prop, v, g))
         else:
             if not (isinstance(g, dt.datetime) and g.tzinfo is None
                     and abs(g - v) < dt.timedelta(seconds=1)):
@@ -644,7 +653,9 @@ def strategies():
     edges = [dt.datetime(1000, 1, 1), hi, hi.replace(microsecond=0), dt.datetime(1970, 1, 1),
              dt.datetime(2000, 2, 29, 23, 59, 59, 500000), dt.datetime(1900, 1, 1),
              dt.datetime(2038, 1, 19, 3, 14, 8), dt.datetime(1601, 1, 1), dt.datetime(1582, 10, 10)]
-    alts = [(3, main), (3, recent), (4, micro), (1, st.sampled_from(edges))]
+    aware = st.builds(lambda d, off: d.replace(tzinfo=dt.timezone(dt.timedelta(minutes=off))), recent,
+                      st.sampled_from([0, 0, 0, 60, -300, 330, -720, 840]))
+    alts = [(3, main), (3, recent), (4, micro), (1, st.sampled_from(edges)), (1, aware)]
     if YEAR_MIN < 1000:
         low = st.one_of(st.datetimes(min_value=dt.datetime(YEAR_MIN, 1, 1),
                                      max_value=dt.datetime(999, 12, 31, 23, 59, 59, 999999)),
